@@ -36,12 +36,15 @@ TECHNIQUE = ("Lean 4 proofs over a hand transcription of FormatterToXMLUnicode (
              "through the real plain serializer against the real indenting serializer; ten transcoder-backed multi-byte / "
              "stateful encodings and 23 single-byte encodings (both serializers) through the real code, judged by independent decoders (Python codecs, own SCSU decoder) "
              "and an expat re-parse")
-LEVEL_TEXT = ("Machine-checked (47 theorems, all proved): UTF-8/UTF-16 encode-decode round trips for every scalar sequence; "
+LEVEL_TEXT = ("Machine-checked (51 theorems, all proved): UTF-8/UTF-16 encode-decode round trips for every scalar sequence; "
               "transparency and bounds of both buffer layers for every write sequence (no chunk splits an item), and with the "
               "bulk-write shape read from the source (flushBuffer() before a direct write of a run longer than the buffer, in "
               "XalanUTF8Writer, XalanUTF16Writer and XalanOutputStream::write) the units handed to the transcoder are the units "
               "of all write calls in call order, for every sequence of calls and every length "
-              "(output_is_concatenation_of_writes; kernel-checked counterexample without the flush); for every converter "
+              "(output_is_concatenation_of_writes; kernel-checked counterexample without the flush); XalanOutputStream's buffer "
+              "with the hold-back of half a surrogate pair (it may hold size+1 units) is transparent, and for every sequence of "
+              "runs that cut well-formed UTF-16 anywhere no transcoder call ends with a leading or starts with a trailing "
+              "surrogate (stream_no_split_pair; counterexample for a hold-back that depends on the fill level); for every converter "
               "modelled as a shift-state machine, chunked transcoding with canTranscodeTo probes in between equals one-shot "
               "transcoding when the probes do not touch the converter (transcoding_chunked_eq_oneshot; counterexample for "
               "the shared, reset-on-probe converter); the raw-text marker PI makes exactly the next non-empty text event "
@@ -87,7 +90,11 @@ DESIGN_REF = "DESIGN.md section 5, C04; design/C04.md"
 THEOREMS = [
     "XalanModel.Props.C04.buffer_transparent",
     "XalanModel.Props.C04.buffer_in_bounds",
-    "XalanModel.Props.C04.stream_transparent",
+    "XalanModel.Props.C04.generated_stream_holdback",
+    "XalanModel.Props.C04.stream_concat",
+    "XalanModel.Props.C04.stream_no_split_pair",
+    "XalanModel.Props.C04.generated_stream_is_intended",
+    "XalanModel.Props.C04.stream_holdback_counterexample",
     "XalanModel.Props.C04.generated_bulk_flushes",
     "XalanModel.Props.C04.output_is_concatenation_of_writes",
     "XalanModel.Props.C04.bulk_without_flush_counterexample",
@@ -452,7 +459,10 @@ def run(ctx):
     ]
     ctx.build("hooks")
     ctx.translate("c04_tables")
-    ctx.lean("XalanModel.Props.C04", THEOREMS, extra_targets=["xm_c04"])
+    if not ctx.lean("XalanModel.Props.C04", THEOREMS, extra_targets=["xm_c04"]):
+        # a theorem over the regenerated definitions no longer checks: lake may have stopped before the driver; the
+        # model must still follow the working tree (a stale binary would blur the correspondence obligations)
+        common.lake_build(["xm_c04"])
     model = ctx.exe("xm_c04")
     harness = common.build_harness("c04_serializer", ["c04_serializer.cpp"], flavor="hooks", sanitize=True)
     work = os.path.join(common.CACHE, "work")
@@ -484,6 +494,8 @@ def run(ctx):
     cases += boundary_cases(ctx.thorough)
     cases += long_run_cases(ctx.thorough)
     cases += raw_marker_cases(ctx.thorough)
+    cases += periodic_pair_cases(ctx.thorough)
+    cases += forbidden_control_cases(ctx.thorough)
     if ctx.thorough:
         cases += exhaustive_cases()
 
@@ -554,6 +566,7 @@ def run(ctx):
             if j3 is not None:
                 ctx.fail(j3[0], j3[1], request_line(f[0], f[1], f[2], sm))
     multibyte_cases(ctx, harness, work, r)
+    stream_cases(ctx, harness, model, work)
     ctx.extra["model_disagreements"] = disagreements
     ctx.extra["harness_crashes_while_shrinking"] = CRASHES[:10]
     ctx.oblige("correspondence: FormatterToXMLUnicode (real code, bytes + writeData chunk sizes + error kind) = Lean model on every generated script",
@@ -793,6 +806,116 @@ def boundary_cases(thorough):
                         out.append(("U", enc, ver, _el(("m", [98] * (pad - 4)), ("c", s * 3, None)), "boundary"))
                         out.append(("U", enc, ver, ("el", G.u("r"), [(G.u("k"), [97] * (pad - 2) + s * 3)], []), "boundary"))
     return out
+
+
+PAIR = [0xD835, 0xDCB3]
+SPACINGS = [510, 511, 512, 513, 1024]
+
+
+def periodic_units(first, spacing, count=5, tail=30):
+    """'a's with a surrogate pair whose leading half sits at unit `first`, `first + spacing`, ..."""
+    out = [97] * (first + spacing * (count - 1) + 2 + tail)
+    for k in range(count):
+        out[first + spacing * k] = PAIR[0]
+        out[first + spacing * k + 1] = PAIR[1]
+    return out
+
+
+def periodic_pair_cases(thorough):
+    """directed: supplementary characters at periodic spacings of 510 / 511 / 512 / 513 / 1024 units, the first one at
+    every alignment 0..3 around a 512-unit boundary of the output (FormatterToXML cuts its output into runs of exactly 512
+    units, wherever that falls, and XalanOutputStream must hold back half a pair again and again), through the legacy and
+    the factory serializer"""
+    out = []
+    for enc, kinds in (("UTF-8", "UL"), ("UTF-16", "UL"), ("ISO-8859-1", "L"), ("US-ASCII", "L"), ("UTF-32BE", "U")):
+        hdr = len('<?xml version="1.0" encoding="%s"?><r>' % enc)
+        for ver in (VERSIONS if thorough else ["1.0"]):
+            for sp in SPACINGS:
+                for a in range(4):
+                    doc = _el(("t", periodic_units(509 + a - hdr, sp), None))
+                    for k in kinds:
+                        out.append((k, enc, ver, doc, "periodic"))
+                    if thorough or a == 2:
+                        doc2 = ("el", G.u("r"), [(G.u("k"), periodic_units(509 + a - hdr - 4, sp))], [])
+                        for k in kinds:
+                            out.append((k, enc, ver, doc2, "periodic"))
+    return out
+
+
+def forbidden_control_cases(thorough):
+    """directed: the C0 controls XML 1.0 forbids (and U+0000 / U+FFFE / U+FFFF) in every literal position of a SAX script -
+    comment, PI data, CDATA section, text, attribute value: the only right answer is an error, never output"""
+    out = []
+    bad = [0x01, 0x08, 0x0B, 0x0C, 0x0E, 0x1F] + ([0x02, 0x10, 0x1B, 0xFFFE, 0xFFFF] if thorough else [0xFFFF])
+    for enc in ENCODINGS:
+        for c in bad:
+            for doc in (_el(("m", [97, c, 98])), _el(("p", G.u("t"), [97, c, 98])), _el(("c", [97, c, 98], None)),
+                        _el(("t", [97, c, 98], None)), ("el", G.u("r"), [(G.u("k"), [97, c, 98])], [])):
+                out.append(("U", enc, "1.0", doc, "forbidden"))
+    return out
+
+
+def stream_cases(ctx, harness, model, work):
+    """XalanOutputStream alone (harness command `stream`): runs that cut a text with periodic supplementary characters
+    anywhere - exactly at the buffer size, just above, just below, unit by unit - for every transcoder-backed encoding.
+    UTF-8 / UTF-16 / UTF-32BE: bytes and writeData sizes against the Lean stream model (`streamRun`, hold-back
+    included); every encoding: no error, and where the encoding has the characters the bytes, decoded by an independent
+    decoder, are the text"""
+    encs = [("UTF-8", "utf_8", True), ("UTF-16", "utf_16", True), ("UTF-32BE", "utf_32_be", True), ("UTF-7", "utf_7", False),
+            ("GB18030", "gb18030", False), ("SCSU", None, False), ("UTF-16BE", "utf_16_be", False), ("ISO-8859-1", "", False),
+            ("Shift_JIS", "", False), ("ISO-2022-JP", "", False), ("windows-1252", "", False)]
+    cuts = [512, 513, 511, 100, 700, 1] if ctx.thorough else [512, 513, 100]
+    lines, meta = [], []
+    for enc, codec, modelled in encs:
+        for sp in SPACINGS:
+            for a in range(4):
+                units = periodic_units(509 + a, sp, count=4 if not ctx.thorough else 6)
+                for cut in cuts:
+                    if cut == 1 and (a or sp != 512):
+                        continue
+                    runs = [units[i:i + cut] for i in range(0, len(units), cut)]
+                    lines.append("stream %s %s" % (enc, " ".join(G.hx(x) for x in runs)))
+                    meta.append((enc, codec, modelled, units, sp, a, cut))
+    il = run_impl(harness, lines, work, "stream")
+    req = os.path.join(work, "c04_stream_model.req")
+    with open(req, "w") as f:
+        f.write("\n".join(lines) + "\n")
+    p = subprocess.run([model], stdin=open(req, "rb"), stdout=subprocess.PIPE)
+    ml = p.stdout.decode().split("\n")
+    differ, n_model = [], 0
+    for n, ((enc, codec, modelled, units, sp, a, cut), line) in enumerate(zip(meta, lines)):
+        ir = il[n] if n < len(il) else "crash"
+        ctx.case(nontrivial_key=line[:200] + str(n), sample=None, cls="stream/%s" % enc)
+        key = None
+        if not ir.startswith("ok "):
+            key, what = "stream-error stream/%s {spacing=%d}" % (enc, sp), "XalanOutputStream raised an error on well-formed UTF-16: " + ir[:120]
+        elif codec != "":
+            data = bytes.fromhex(ir.split()[1])
+            try:
+                if codec is None:
+                    got = MB.scsu_decode(data)
+                else:
+                    t = data.decode(codec, "strict")
+                    got = G.u(t[1:] if t.startswith("\ufeff") else t)
+                if got != units:
+                    k = 0
+                    while k < min(len(got), len(units)) and got[k] == units[k]:
+                        k += 1
+                    key, what = "stream-differs stream/%s {spacing=%d}" % (enc, sp), "decoded output differs from the units written at unit %d" % k
+            except Exception as ex:
+                key, what = "stream-undecodable stream/%s {spacing=%d}" % (enc, sp), "output is not valid %s: %s" % (enc, str(ex)[:120])
+        if key:
+            ctx.fail(key, what + " (first pair at %d, runs of %d) ; impl: %s" % (509 + a, cut, ir[:120]), line[:6000])
+        if modelled:
+            n_model += 1
+            mr = ml[n] if n < len(ml) else "nomodel"
+            same = mr.split()[:2] == ir.split()[:2] if ir.startswith("err") else mr.split()[:3] == ir.split()[:3]
+            if not same:
+                differ.append({"request": line[:200], "impl": ir[:200], "model": mr[:200]} if len(differ) < 3 else {})
+    ctx.extra["stream_layer"] = {"requests": len(lines), "against_model": n_model, "model_differs": len(differ)}
+    ctx.oblige("correspondence: XalanOutputStream::write / flushBuffer (real code, bytes + writeData sizes) = Lean stream model "
+               "(streamRun with the hold-back) on %d run sequences" % n_model, "correspondence",
+               not differ and len(il) == len(lines), json.dumps([d for d in differ if d][:2]))
 
 
 def raw_marker_cases(thorough):
